@@ -170,6 +170,74 @@ def is_greedy(T):
     return _kind(T) in ("list", "bytes")
 
 
+class _Short(Exception):
+    pass
+
+
+class _Unknown(Exception):
+    pass
+
+
+def _consume(T, data: bytes) -> bytes:
+    """Strip the bytes one value of type T occupies, judged by wire shape alone (widths from type NAMES, see int_props).
+    Raises _Short when the data cannot hold it, _Unknown when the type decodes by rules of its own."""
+    k = _kind(T)
+    if k in ("int", "enum", "bitmap"):
+        size, _ = int_props(T)
+        if len(data) < size:
+            raise _Short()
+        return data[size:]
+    if k == "lvbytes":
+        plen = lv_prefix(T)
+        if len(data) < plen:
+            raise _Short()
+        n = int.from_bytes(data[:plen], "little")
+        if len(data) < plen + n:
+            raise _Short()
+        return data[plen + n:]
+    if k == "bytes":
+        return b""
+    if k == "fixedlist":
+        for _ in range(T._length):
+            data = _consume(T._item_type, data)
+        return data
+    if k == "lvlist":
+        if len(data) < 1:
+            raise _Short()
+        n, data = data[0], data[1:]
+        for _ in range(n):
+            data = _consume(T._item_type, data)
+        return data
+    if k == "list":
+        while data:
+            data = _consume(T._item_type, data)
+        return data
+    # struct
+    if "deserialize" in T.__dict__ or any(f.requires is not None for f in T.fields):
+        raise _Unknown()
+    for f in T.fields:
+        if not data and f.optional:
+            break
+        data = _consume(f.type, data)
+    return data
+
+
+def fits(schema, payload: bytes):
+    """True / False: the payload is long enough / too short for the schema, by wire shape alone; None: cannot tell."""
+    try:
+        data = bytes(payload)
+        if isinstance(schema, dict):
+            for T in schema.values():
+                data = _consume(T, data)
+        else:
+            _consume(schema, data)
+        return True
+    except _Short:
+        return False
+    except (_Unknown, TypeError):
+        return None
+
+
 def schema_strategy(schema):
     """dict schema -> strategy of ([values...], bytes); struct schema -> (struct, bytes)."""
     if isinstance(schema, dict):
